@@ -156,7 +156,7 @@ type Frame struct {
 	Queued   bool   // false: dropped by the carrier because the other side was gone
 	Note     string // non-frame events ("break", "c.closesend", ...)
 	Deliv    int    // step at which it was delivered to the receiving endpoint (-1: not)
-	delivIdx int
+	DataLen  int    // message bytes carried by a data frame (the tap keeps sizes, not payloads)
 }
 
 // Tap records every frame of every carrier stream.
@@ -181,8 +181,9 @@ func (t *Tap) frame(ms *MStream, c2s bool, m proto.Message, b []byte, queued boo
 		name = th.Name
 	}
 	t.mu.Lock()
-	t.Frames = append(t.Frames, &Frame{Seq: len(t.Frames), Step: t.w.step, Stream: ms.Name, C2S: c2s, Msg: proto.Clone(m),
-		Size: len(b), Sender: name, Queued: queued, Deliv: -1})
+	lite, n := stripData(m)
+	t.Frames = append(t.Frames, &Frame{Seq: len(t.Frames), Step: t.w.step, Stream: ms.Name, C2S: c2s, Msg: lite,
+		Size: len(b), Sender: name, Queued: queued, Deliv: -1, DataLen: n})
 	t.mu.Unlock()
 }
 
@@ -199,6 +200,27 @@ func (t *Tap) delivered(ms *MStream, c2s bool) {
 			return
 		}
 	}
+}
+
+// stripData copies a frame without its payload bytes (kept: ids, kinds, sizes, metadata).
+func stripData(m proto.Message) (proto.Message, int) {
+	switch x := m.(type) {
+	case *tunnelpb.ClientToServer:
+		switch fr := x.Frame.(type) {
+		case *tunnelpb.ClientToServer_RequestMessage:
+			return &tunnelpb.ClientToServer{StreamId: x.StreamId, Frame: &tunnelpb.ClientToServer_RequestMessage{RequestMessage: &tunnelpb.MessageData{Size: fr.RequestMessage.GetSize()}}}, len(fr.RequestMessage.GetData())
+		case *tunnelpb.ClientToServer_MoreRequestData:
+			return &tunnelpb.ClientToServer{StreamId: x.StreamId, Frame: &tunnelpb.ClientToServer_MoreRequestData{}}, len(fr.MoreRequestData)
+		}
+	case *tunnelpb.ServerToClient:
+		switch fr := x.Frame.(type) {
+		case *tunnelpb.ServerToClient_ResponseMessage:
+			return &tunnelpb.ServerToClient{StreamId: x.StreamId, Frame: &tunnelpb.ServerToClient_ResponseMessage{ResponseMessage: &tunnelpb.MessageData{Size: fr.ResponseMessage.GetSize()}}}, len(fr.ResponseMessage.GetData())
+		case *tunnelpb.ServerToClient_MoreResponseData:
+			return &tunnelpb.ServerToClient{StreamId: x.StreamId, Frame: &tunnelpb.ServerToClient_MoreResponseData{}}, len(fr.MoreResponseData)
+		}
+	}
+	return proto.Clone(m), 0
 }
 
 // TunnelFrames returns the frames (not notes) of one carrier stream in send order.
@@ -223,21 +245,21 @@ func FrameString(f *Frame) string {
 	}
 	switch m := f.Msg.(type) {
 	case *tunnelpb.ClientToServer:
-		return fmt.Sprintf("%s C>S id=%d %s%s", f.Stream, m.StreamId, c2sKind(m), q)
+		return fmt.Sprintf("%s C>S id=%d %s%s", f.Stream, m.StreamId, c2sKind(m, f.DataLen), q)
 	case *tunnelpb.ServerToClient:
-		return fmt.Sprintf("%s S>C id=%d %s%s", f.Stream, m.StreamId, s2cKind(m), q)
+		return fmt.Sprintf("%s S>C id=%d %s%s", f.Stream, m.StreamId, s2cKind(m, f.DataLen), q)
 	}
 	return fmt.Sprintf("%s ? %T", f.Stream, f.Msg)
 }
 
-func c2sKind(m *tunnelpb.ClientToServer) string {
+func c2sKind(m *tunnelpb.ClientToServer, n int) string {
 	switch fr := m.Frame.(type) {
 	case *tunnelpb.ClientToServer_NewStream:
 		return fmt.Sprintf("new(%s rev=%d win=%d)", fr.NewStream.MethodName, fr.NewStream.ProtocolRevision, fr.NewStream.InitialWindowSize)
 	case *tunnelpb.ClientToServer_RequestMessage:
-		return fmt.Sprintf("msg(size=%d data=%d)", fr.RequestMessage.Size, len(fr.RequestMessage.Data))
+		return fmt.Sprintf("msg(size=%d data=%d)", fr.RequestMessage.Size, n)
 	case *tunnelpb.ClientToServer_MoreRequestData:
-		return fmt.Sprintf("more(%d)", len(fr.MoreRequestData))
+		return fmt.Sprintf("more(%d)", n)
 	case *tunnelpb.ClientToServer_HalfClose:
 		return "halfclose"
 	case *tunnelpb.ClientToServer_Cancel:
@@ -250,16 +272,16 @@ func c2sKind(m *tunnelpb.ClientToServer) string {
 	return fmt.Sprintf("%T", m.Frame)
 }
 
-func s2cKind(m *tunnelpb.ServerToClient) string {
+func s2cKind(m *tunnelpb.ServerToClient, n int) string {
 	switch fr := m.Frame.(type) {
 	case *tunnelpb.ServerToClient_Settings:
 		return fmt.Sprintf("settings(revs=%v win=%d)", fr.Settings.SupportedProtocolRevisions, fr.Settings.InitialWindowSize)
 	case *tunnelpb.ServerToClient_ResponseHeaders:
 		return "headers"
 	case *tunnelpb.ServerToClient_ResponseMessage:
-		return fmt.Sprintf("msg(size=%d data=%d)", fr.ResponseMessage.Size, len(fr.ResponseMessage.Data))
+		return fmt.Sprintf("msg(size=%d data=%d)", fr.ResponseMessage.Size, n)
 	case *tunnelpb.ServerToClient_MoreResponseData:
-		return fmt.Sprintf("more(%d)", len(fr.MoreResponseData))
+		return fmt.Sprintf("more(%d)", n)
 	case *tunnelpb.ServerToClient_CloseStream:
 		return fmt.Sprintf("close(%d)", fr.CloseStream.GetStatus().GetCode())
 	case *tunnelpb.ServerToClient_WindowUpdate:
